@@ -287,6 +287,14 @@ func (bf *boundsFn) noWriteBetween(a, b ssa.Instruction) bool {
 		if st, ok := ins.(*ssa.Store); ok && loaded != nil {
 			return !typesOverlap(st.Val.Type(), loaded)
 		}
+		// copy(dst, src) stores elements of dst's element type
+		if ci, ok := ins.(ssa.CallInstruction); ok && loaded != nil {
+			if bi, ok := ci.Common().Value.(*ssa.Builtin); ok && bi.Name() == "copy" {
+				if sl, ok := ci.Common().Args[0].Type().Underlying().(*types.Slice); ok {
+					return !typesOverlap(sl.Elem(), loaded)
+				}
+			}
+		}
 		return false
 	}
 	segment := func(blk *ssa.BasicBlock, from, to ssa.Instruction) bool {
